@@ -1,5 +1,5 @@
 //@unit rt_spans
-//@serves C04 C05 C09
+//@serves C03 C04 C05 C09
 //@backend verus
 // bbiwrite::get_rtreeindex -- the closure that builds ONE non-leaf R-tree item from the child it
 // summarises (`.map(|c| match &c { DataSections(..) => RTreeNode {..}, Nodes(..) => RTreeNode {..} })`).
@@ -151,6 +151,26 @@ fn first_child(v: &Vec<RTreeNode>) -> (r: Option<&RTreeNode>)
 {
     if v.len() == 0 { None } else { Some(&v[0]) }
 }
+/// `X.iter().max_by_key(|e| e.FIELD)` (not used by the code today): ASSUMED std contract -- an element whose key is
+/// maximal (the last such element), None on an empty slice.  Present so that an edit using it is judged: a maximum
+/// over the BASE alone is not the maximum over (chrom, base).
+#[verifier::external_body] fn max_by_key_sections_end(v: &Vec<Section>) -> (r: Option<&Section>)
+    ensures v@.len() == 0 ==> r is None,
+        v@.len() > 0 ==> r is Some && v@.contains(*r->Some_0) && forall|i: int| 0 <= i < v@.len() ==> (#[trigger] v@[i]).end <= r->Some_0.end,
+{ unimplemented!() }
+#[verifier::external_body] fn max_by_key_children_end_base(v: &Vec<RTreeNode>) -> (r: Option<&RTreeNode>)
+    ensures v@.len() == 0 ==> r is None,
+        v@.len() > 0 ==> r is Some && v@.contains(*r->Some_0) && forall|i: int| 0 <= i < v@.len() ==> (#[trigger] v@[i]).end_base <= r->Some_0.end_base,
+{ unimplemented!() }
+/// any other key: some element, nothing else known
+#[verifier::external_body] fn max_by_key_sections_other(v: &Vec<Section>) -> (r: Option<&Section>)
+    ensures v@.len() > 0 ==> r is Some && v@.contains(*r->Some_0),
+{ unimplemented!() }
+#[verifier::external_body] fn max_by_key_children_other(v: &Vec<RTreeNode>) -> (r: Option<&RTreeNode>)
+    ensures v@.len() > 0 ==> r is Some && v@.contains(*r->Some_0),
+{ unimplemented!() }
+/// `None.unwrap()`
+fn unwrap_none_pair() -> (r: (u32, u32)) requires false { (0, 0) }
 #[verifier::external_body] fn last_section(v: &Vec<Section>) -> (r: Option<&Section>) { unimplemented!() }
 #[verifier::external_body] fn last_child(v: &Vec<RTreeNode>) -> (r: Option<&RTreeNode>) { unimplemented!() }
 
@@ -194,6 +214,11 @@ spec fn tight(n: RTreeNode) -> bool {
 //@sub /(\w+)\s*\.iter\(\)\s*\.map\(\|n\| \(n\.end_chrom_idx, n\.end_base\)\)\s*\.min\(\)/ => min_end_of_children(\1) min=0
 //@sub /(\w+)\.iter\(\)\s*\.map\(\|s\| \(s\.chrom, s\.end\)\)\s*\.last\(\)/ => last_end_of_sections(\1) min=0
 //@sub /(\w+)\s*\.iter\(\)\s*\.map\(\|n\| \(n\.end_chrom_idx, n\.end_base\)\)\s*\.last\(\)/ => last_end_of_children(\1) min=0
+//@sub /\bsections\s*\.iter\(\)\s*\.max_by_key\(\|(\w+)\| \1\.end\)/ => max_by_key_sections_end(sections) min=0
+//@sub /\bchildren\s*\.iter\(\)\s*\.max_by_key\(\|(\w+)\| \1\.end_base\)/ => max_by_key_children_end_base(children) min=0
+//@sub /\bsections\s*\.iter\(\)\s*\.(?:max|min)_by_key\(\|(\w+)\| [^|;()]*\)/ => max_by_key_sections_other(sections) min=0
+//@sub /\bchildren\s*\.iter\(\)\s*\.(?:max|min)_by_key\(\|(\w+)\| [^|;()]*\)/ => max_by_key_children_other(children) min=0
+//@sub /(max_by_key_\w+\(\w+\))\s*\.map\(\|(\w+)\| (\([^()]*\))\)\s*\.unwrap\(\)/ => (match \1 { Some(\2) => \3, None => unwrap_none_pair() }) min=0
 //@sub /\bsections\s*\.iter\(\)\s*\.map\(\|\w+\| [^|;]*?\)\s*\.\w+\(\)/ => last_end_of_sections(sections) min=0
 //@sub /\bchildren\s*\.iter\(\)\s*\.map\(\|\w+\| [^|;]*?\)\s*\.\w+\(\)/ => last_end_of_children(children) min=0
 //@sub /\bsections\.first\(\)/ => first_section(sections) min=0
